@@ -99,37 +99,53 @@ pub fn run(tier: Tier) -> i32 {
     explore_more(&mut rep, "sweep", &sweep, tier.pick(3, 4), tier.pick(2.0, 30.0));
     // (b) loom
     let bound = tier.pick(3, 6);
-    let out = std::process::Command::new("/verif/target/loom/release/loomck").arg(bound.to_string()).output();
-    let out = match out {
-        Ok(o) => o,
-        Err(e) => {
-            eprintln!("machinery error: cannot run loomck: {e}");
-            std::process::exit(2);
-        }
-    };
-    let text = String::from_utf8_lossy(&out.stdout);
-    let Some(line) = text.lines().find_map(|l| l.strip_prefix("LOOMRESULT ")) else {
-        eprintln!("machinery error: loomck produced no result: {}\n{}", text, String::from_utf8_lossy(&out.stderr));
-        std::process::exit(2);
-    };
-    let v: serde_json::Value = serde_json::from_str(line).expect("LOOMRESULT json");
+    // one process per scenario: a deadlock found by loom ends in a non-unwinding panic
+    let mut all = vec![];
     let mut iterations = 0;
-    for s in v.as_array().unwrap() {
-        iterations += s["iterations"].as_u64().unwrap_or(0);
-        for x in s["violations"].as_array().unwrap() {
-            let msg = x.as_str().unwrap_or("").to_string();
-            let sig = msg.split(':').next().unwrap_or("").to_string();
-            rep.violation(Violation {
-                signature: format!("loom/{}/{}", s["scenario"].as_str().unwrap_or(""), sig),
-                message: format!("loom scenario {} (preemption bound {}): {}", s["scenario"], bound, msg),
-                replay: json!({"kind": "loom", "scenario": s["scenario"], "bound": bound}),
-            });
-        }
-        if s["iterations"].as_u64().unwrap_or(0) == 0 && s["violations"].as_array().unwrap().is_empty() {
-            eprintln!("machinery error: loom scenario {} explored nothing", s["scenario"]);
+    for scenario in ["updates", "bmca"] {
+        let out = match std::process::Command::new("/verif/target/loom/release/loomck").arg(bound.to_string()).arg(scenario).output() {
+            Ok(o) => o,
+            Err(e) => {
+                eprintln!("machinery error: cannot run loomck: {e}");
+                std::process::exit(2);
+            }
+        };
+        let text = String::from_utf8_lossy(&out.stdout).to_string();
+        let err = String::from_utf8_lossy(&out.stderr).to_string();
+        let Some(line) = text.lines().find_map(|l| l.strip_prefix("LOOMRESULT ")) else {
+            // loom reports a deadlock (every thread blocked on the instance-state lock) by a panic
+            // that cannot be caught: that is a verdict, anything else is a machinery failure
+            if let Some(d) = err.lines().find(|l| l.starts_with("deadlock; threads")) {
+                rep.violation(Violation {
+                    signature: format!("loom/{scenario}/deadlock"),
+                    message: format!("loom scenario {scenario} (preemption bound {bound}): an interleaving blocks every thread on the instance-state lock - {d}"),
+                    replay: json!({"kind": "loom", "scenario": scenario, "bound": bound}),
+                });
+                continue;
+            }
+            eprintln!("machinery error: loomck produced no result for scenario {scenario}: {}\n{}", text, err);
             std::process::exit(2);
+        };
+        let v: serde_json::Value = serde_json::from_str(line).expect("LOOMRESULT json");
+        for s in v.as_array().unwrap() {
+            iterations += s["iterations"].as_u64().unwrap_or(0);
+            for x in s["violations"].as_array().unwrap() {
+                let msg = x.as_str().unwrap_or("").to_string();
+                let sig = msg.split(':').next().unwrap_or("").to_string();
+                rep.violation(Violation {
+                    signature: format!("loom/{}/{}", s["scenario"].as_str().unwrap_or(""), sig),
+                    message: format!("loom scenario {} (preemption bound {}): {}", s["scenario"], bound, msg),
+                    replay: json!({"kind": "loom", "scenario": s["scenario"], "bound": bound}),
+                });
+            }
+            if s["iterations"].as_u64().unwrap_or(0) == 0 && s["violations"].as_array().unwrap().is_empty() {
+                eprintln!("machinery error: loom scenario {} explored nothing", s["scenario"]);
+                std::process::exit(2);
+            }
+            all.push(s.clone());
         }
     }
+    let v = serde_json::Value::Array(all);
     rep.cover("loom", v.clone());
     rep.cover("loom_iterations", json!(iterations));
     rep.assume("loom explores all interleavings at lock operations up to the preemption bound; all sharing between ports goes through the instance-state lock (the relaxed AtomicI8 holding the BMCA interval is not modelled and not part of the property)");
